@@ -26,6 +26,11 @@ theorem async_client_send_sync :
 theorem async_query_futures_send :
     queryRawFuture.all (isSend asyncEnv 8) = true ∧ queryRRSetFuture.all (isSend asyncEnv 8) = true := by decide
 
+/-- the configuration every client stores by value (and every pending future borrows) is `Send + Sync`,
+    whichever feature-gated fields it has -/
+theorem config_send_sync :
+    isSend stdEnv 8 (.named .clientConfig) = true ∧ isSync stdEnv 8 (.named .clientConfig) = true := by decide
+
 /-- the per-query context is `Send` in both implementations -/
 theorem ctx_send : isSend stdEnv 8 (.named .clientCtx) = true ∧ isSend asyncEnv 8 (.named .clientCtx) = true := by
   decide
